@@ -432,7 +432,8 @@ def c20_cancel_case(seed, model, rep):
     try:
         tail = start_tail(repo, flt)
         rc, j, out, err = repo.mono("run", "-c", "build", "-t", "app", "app2", "lib", "--deps", timeout=120)
-        scen.reap_helpers(repo)
+        # (not the listener: it runs in the repository too and may still be relaying the last block)
+        scen.reap_helpers(repo, keep=(tail.pid,))
         rep.evaluations += 1
         rep.count("cancel_cases")
         if rc != 1:
